@@ -263,6 +263,10 @@ func (w *World) concrete(h Handle) string {
 	if s, ok := w.h2str[h]; ok {
 		return s
 	}
+	// identifiers made of white space only (blankBase + k): never issued, and not empty
+	if h >= blankBase && h < blankBase+Handle(len(blankIDs)) {
+		return blankIDs[h-blankBase]
+	}
 	// never-issued value: an opaque-looking string of 50 chars
 	s := fmt.Sprintf("unknown-%d-", uint64(h))
 	for len(s) < 50 {
@@ -615,3 +619,8 @@ func (w *World) serve(method, target string, form url.Values, hdr http.Header) (
 
 // serveHook, when set, sees every raw request/response pair served by a World (suite c09 scans them)
 var serveHook func(w *World, method, target string, form url.Values, hdr http.Header, rec *httptest.ResponseRecorder)
+
+// white-space-only identifiers a client may send where a server-issued one belongs
+const blankBase = unknownBase + 90000
+
+var blankIDs = []string{" ", "\t", "  ", " \t "}
